@@ -715,6 +715,8 @@ def run_impl(text: str, limit: float = 0.5) -> str:
 def safe_driver(run: Run, lines: list[str], budget: float = 90.0) -> list:
     """the Lean driver with a safety net: a chunk that does not answer in time is bisected and the
     offending line answered with None"""
+    import os
+    import signal
     import subprocess
     from harness.common import LEAN
 
@@ -722,21 +724,29 @@ def safe_driver(run: Run, lines: list[str], budget: float = 90.0) -> list:
         if not ls:
             return []
         data = '\n'.join(ls) + '\n'
+        # own process group: on a timeout the `lean` child of `lake env` must die too
+        p = subprocess.Popen(['lake', 'env', 'lean', '--run', 'Drivers/C16.lean'], cwd=LEAN,
+                             stdin=subprocess.PIPE, stdout=subprocess.PIPE, stderr=subprocess.PIPE,
+                             text=True, start_new_session=True)
         try:
-            p = subprocess.run(['lake', 'env', 'lean', '--run', 'Drivers/C16.lean'], cwd=LEAN, input=data,
-                               capture_output=True, text=True, timeout=t)
-            out = p.stdout.split('\n')
-            if out and out[-1] == '':
-                out.pop()
-            if p.returncode != 0 or len(out) != len(ls):
-                raise DriverError(f'driver C16: rc={p.returncode}, {len(out)} answers for {len(ls)} lines\n'
-                                  f'{p.stderr[-2000:]}')
-            return out
+            stdout, stderr = p.communicate(data, timeout=t)
         except subprocess.TimeoutExpired:
+            try:
+                os.killpg(p.pid, signal.SIGKILL)
+            except ProcessLookupError:
+                pass
+            p.communicate()
             if len(ls) == 1:
                 return [None]
             h = len(ls) // 2
             return go(ls[:h], max(6.0, t / 3)) + go(ls[h:], max(6.0, t / 3))
+        out = stdout.split('\n')
+        if out and out[-1] == '':
+            out.pop()
+        if p.returncode != 0 or len(out) != len(ls):
+            raise DriverError(f'driver C16: rc={p.returncode}, {len(out)} answers for {len(ls)} lines\n'
+                              f'{stderr[-2000:]}')
+        return out
     return go(lines, budget)
 
 
